@@ -87,7 +87,7 @@ pub fn reader_policy(rng: &mut Rng, w: &PolKind) -> PolKind {
         },
         1 => {
             // a different name: must be ignored, never consulted
-            let cands = [PolKind::NoFilter, PolKind::FirstByte, PolKind::RejectAll, PolKind::Bloom(10)];
+            let cands = [PolKind::NoFilter, PolKind::FirstByte, PolKind::RejectAll, PolKind::RejectAllPrefix, PolKind::RejectAllExt, PolKind::RejectAllPrefix, PolKind::Bloom(10)];
             let c: Vec<&PolKind> = cands.iter().filter(|c| c.disk_name() != w.disk_name()).collect();
             (*rng.pick(&c)).clone()
         }
